@@ -5,6 +5,7 @@ mod coll;
 mod scen;
 mod acc;
 mod values;
+mod vtree;
 mod view;
 mod vlock;
 
@@ -586,6 +587,11 @@ fn main() {
 			out.flush().unwrap();
 		} else if line.starts_with("v ") {
 			writeln!(out, "{}", values::run(&line)).unwrap();
+		} else if line.starts_with("t ") {
+			writeln!(out, "{}", vtree::run(&line)).unwrap();
+			out.flush().unwrap();
+		} else if line.trim() == "ttypes" {
+			writeln!(out, "{}", vtree::list()).unwrap();
 		} else if line.starts_with("a ") {
 			writeln!(out, "{}", acc::run(&line)).unwrap();
 			out.flush().unwrap();
